@@ -60,7 +60,7 @@ impl Prop for C08 {
                 if same {
                     tags.push("nt:same-class");
                 }
-                let (sa, sb) = (value_to_sexp(a), value_to_sexp(b));
+                let (sa, sb) = (value_to_sexp_exact(a), value_to_sexp_exact(b));
                 out.push(Case::new(Sexp::call("cmp", vec![sa.clone(), sb.clone()]), &tags));
                 out.push(Case::new(Sexp::call("eq", vec![sa, sb]), &tags));
             }
@@ -103,8 +103,8 @@ impl Prop for C08 {
             let mut reqs = vec![];
             for a in vs {
                 for b in vs {
-                    reqs.push(Sexp::call("cmp", vec![value_to_sexp(a), value_to_sexp(b)]).to_string());
-                    reqs.push(Sexp::call("eq", vec![value_to_sexp(a), value_to_sexp(b)]).to_string());
+                    reqs.push(Sexp::call("cmp", vec![value_to_sexp_exact(a), value_to_sexp_exact(b)]).to_string());
+                    reqs.push(Sexp::call("eq", vec![value_to_sexp_exact(a), value_to_sexp_exact(b)]).to_string());
                 }
             }
             fails.push(OracleFailure { key: key.to_string(), detail, requests: reqs });
